@@ -19,7 +19,8 @@ CFG = {
                                  "C06_text_value", "C06_denotes_unique",
                                  "C06_unmarshal_lit", "C06_decode_lit", "C06_decode_lit_overflow", "C06_decode_lit_skipped",
                                  "C06_decode_lit_sound", "C06_decode_lit_conservative",
-                                 "C06_parse_factor", "C06_text_decode_lit", "C06_text_decode_driver"]],
+                                 "C06_parse_factor", "C06_text_decode_lit", "C06_text_decode_driver",
+                                 "C06_text_decode_lit_sound", "C06_text_roundtrip_lit"]],
     "trusted_base": [
         "Lean 4.33.0 kernel; axioms of every theorem printed by #print axioms must be within {propext, Classical.choice, Quot.sound}",
         "T1: lean/GeomV/C06/Gen.lean is regenerated from /repo/encoding/geojson/{encode,decode,geojson}.go on every run by "
@@ -35,8 +36,10 @@ CFG = {
         "of g; C06_text_value/C06_denotes_unique (via lean/GeomV/C17/DecProofs.lean, DecMono.lean: Dec.toBits is IEEE round-to-nearest-even of "
         "the literal's exact rational value) give the arithmetic meaning. Trusted: that json.Marshal's rendering of a lone float64 (the table) is "
         "what it writes inside the document - checked by the byte comparison with renderGeometry",
-        "encoding/json object decoding as modelled in `unmarshal` (case-insensitive field match incl. U+017F/U+212A, last duplicate wins, null is a "
-        "no-op for string fields, unknown members skipped): exercised by generated documents",
+        "encoding/json object decoding as modelled in `unmarshal` / literal level `unmarshalL` (case-insensitive field match incl. U+017F/U+212A, "
+        "last duplicate wins, null is a no-op for string fields, unknown members skipped = only scanned, number literals converted only inside a "
+        "stored coordinates value, out-of-range literal there => saved UnmarshalTypeError): closed form proved (C06_unmarshal_lit), agreement with "
+        "encoding/json exercised by generated documents (dec lines are judged with fromTreeL rangeConv)",
         "the reading of RFC 7946 section 3.1 into lean/GeomV/C06/Spec.lean",
         "harness/cmd/c06 + lean driver + lib/vcheck.py transport inputs faithfully",
     ],
@@ -55,7 +58,11 @@ CFG = {
             "nil slices; Feature/FeatureCollection/crs/bbox/foreign-member/3-D documents; about 250 texts that are NOT JSON (hand-written + one random "
             "byte edit of a good document: the driver's total parser rejects <=> SyntaxError) and overflowing literals in stored vs skipped members; "
             "dbatch lines (kept Decode results re-read after later calls, windows beyond 4096/8192 vertices); cc lines (concurrent callers vs the "
-            "answer computed alone); wide geometries up to 2049 (thorough 4097) members; distinct = distinct input line; non-trivial = verdict class not 'skipped'",
+            "answer computed alone); wide geometries up to 2049 (thorough 4097) members; hist lines (one object: Encode+Decode, in-place edit of the same "
+            "backing arrays - one vertex / all / zero signs / reslice +-1 / other type over the same runs / non-finite appears and disappears / "
+            "vertices trade places - Encode+Decode again, 2..5 steps, document handed to Decode in one reused buffer); +-0 twins (vertices equal "
+            "under == but not bitwise, in one run / across runs / across members); 2^16+1 members at every nesting level of every type, later "
+            "members with 65537-vertex runs, random 2^13+1..2^17+1 (rt lines); distinct = distinct input line; non-trivial = verdict class not 'skipped'",
     "timeout": {"quick": 600, "thorough": 3000},
     "explanation": "SPEC verdicts: the bytes Encode returns are parsed by the total RFC 8259 parser of Text.lean (the one the text-level theorems are about) (numbers converted by exact "
                    "round-to-nearest-even) and must be read back to the input geometry bit-for-bit by the independent RFC 7946 reader "
